@@ -37,6 +37,20 @@ func (comp) Gen(r *kit.Rng, maxLen int, tier string) kit.Case {
 	}
 	ttls := []int64{1, 2, 10, 1000, 3_000_000_000}
 	ttl := ttls[r.Intn(len(ttls))]
+	if r.Chance(1) || (tier == "thorough" && r.Chance(1)) {
+		// expiry burst: far more entries than any per-sweep bound expire at one instant
+		u := 1100 + r.Intn(2000)
+		var ops []string
+		for k := 0; k < u; k++ {
+			v := 0
+			if kind == "map" {
+				v = k % 50
+			}
+			ops = append(ops, fmt.Sprintf("set %d %d", k, v))
+		}
+		ops = append(ops, "length", fmt.Sprintf("adv %d", ttl), "probe", "adv 1", "probe", "length", "keys", "probe")
+		return kit.Case{Header: fmt.Sprintf("kind=%s ttl=%d universe=%d", kind, ttl, u), Ops: ops}
+	}
 	u := 2 + r.Intn(4)
 	n := 4 + r.Intn(maxLen)
 	// the generator tracks expiry instants so that clock advances land exactly on them
